@@ -5,6 +5,7 @@ import (
 	"math/big"
 	"strconv"
 	"strings"
+	"unicode/utf8"
 
 	parser "github.com/formancehq/numscript/internal/parser/antlr"
 	"github.com/formancehq/numscript/internal/utils"
@@ -620,7 +621,7 @@ func ctxToRange(ctx antlr.ParserRuleContext) Range {
 			Line: endTk.GetLine() - 1,
 
 			// this is based on the assumption that a token cannot span multiple lines
-			Character: endTk.GetColumn() + len(endTk.GetText()),
+			Character: endTk.GetColumn() + utf8.RuneCountInString(endTk.GetText()),
 		},
 	}
 }
@@ -633,7 +634,7 @@ func tokenToRange(tk antlr.Token) Range {
 		},
 		End: Position{
 			Line:      tk.GetLine() - 1,
-			Character: tk.GetColumn() + len(tk.GetText()),
+			Character: tk.GetColumn() + utf8.RuneCountInString(tk.GetText()),
 		},
 	}
 }
